@@ -120,9 +120,20 @@ def judge(J64, dname, a, ctx, case, klass):
         allowance = np.zeros(m)
         # the solver's error is an error dA on the output with |dA| <= tau_c s (1 + c): entry i of J.A moves by at most |J_i| |dA|.
         # Per-row slop (it was tau_c s^2 (1 + c) for every row, which let a clearly negative entry on a SMALL row pass)
-        slop = TAU_C[dname] * s * (1 + a["c"]) * np.linalg.norm(J, axis=1)
-        rowunit = np.maximum(np.linalg.norm(J, axis=1) * s, 1e-300)
-        ctx.maximum(f"cagrad_worst_negative_entry_over_rownorm_s_{dname}", float(max((-prod / rowunit).max(), 0.0)))
+        # ... which holds where CAGrad is well-posed.  Near stationarity (the convex hull of the rows comes within rho <= 2e-3 s
+        # (float64) / 1e-2 s (float32) of the origin: the guard of C08 / C18) the optimal combination g_w vanishes, the direction
+        # g_w / |g_w| is decided by the solver's last digits and A itself is discontinuous: there only the bound in units of s^2 is
+        # meaningful (thorough seed 12: 4 x 1 matrix with rows of both signs, exact answer A = 0, float32 answer 0.28 s).
+        _, rho2 = R.min_norm_point(J @ J.T) if m <= 8 else (None, None)
+        well_posed = rho2 is not None and np.sqrt(max(rho2, 0.0)) >= {"float64": 2e-3, "float32": 1e-2}[dname] * s
+        if well_posed:
+            slop = TAU_C[dname] * s * (1 + a["c"]) * np.linalg.norm(J, axis=1)
+            rowunit = np.maximum(np.linalg.norm(J, axis=1) * s, 1e-300)
+            ctx.maximum(f"cagrad_worst_negative_entry_over_rownorm_s_{dname}", float(max((-prod / rowunit).max(), 0.0)))
+            ctx.count("cagrad_per_row_slop_applied")
+        else:
+            slop = np.full(m, TAU_C[dname] * s ** 2 * (1 + a["c"]))
+            ctx.count("cagrad_near_stationary_s2_slop_applied")
     slack = prod + allowance + slop
     ctx.count(f"entries_checked:{name}", m)
     unit = s ** 2 if s > 0 else 1.0
